@@ -252,4 +252,74 @@ def c03(pid, tier, replay):
               "the other formats; the output is decoded with encoding/json only and read back with the format stated")
 
 
-CHECKS = {"C01": c01, "C02": c02, "C03": c03, "C19": c19, "C20": c20, "C18": c18, "C13": n13, "C14": n13, "C08": g08, "C09": g09, "C10": g09, "C11": g11, "C12": g12, "C15": g15, "C16": g16}
+def c07(pid, tier, replay):
+    import json as _json
+    from common import tlc as _tlc, Infra as _Infra
+    nshards = 12
+    sample = 1800 if tier == Q else 0
+
+    def prepare(scratch, plan, vh):
+        dest = scratch.path("shapes.json")
+        out, rc, gen, dist = _tlc(scratch, "Totality", "Totality_shapes.cfg", env={"VH_EXPORT": dest}, workers=1, timeout=900)
+        if rc != 0 or "No error has been found" not in out:
+            raise _Infra("TLC could not enumerate the shape lattice:\n" + out[-2000:])
+        n = len(_json.load(open(dest))["all"])
+        plan["jobs"] = [{"cmd": ["ser-run", "--shapes", dest, "--sample", str(sample), "--seed", str(seed()), "--shard", str(i),
+                                 "--shards", str(nshards)], "label": "shard%d" % i} for i in range(nshards)]
+        plan["extra_coverage"] = {"shape_lattice_size": n, "shapes_executed": n if sample == 0 else min(sample, n),
+                                  "formats": 8, "exhaustive": sample == 0}
+
+    plan = {
+        "module": "TraceSer", "cfg": "TraceSer.cfg", "own": r"^ser\..*$", "jobs": [], "prepare": prepare,
+        "replay_cmd": lambda path: ["ser-run", "--replay", path],
+        "result_keys": ("o", "n", "op"), "nontrivial": lambda e: True,
+        "rule": "TLC enumerates the document-shape lattice of Totality.tla (metadata x node list x roots x nodes x edges x "
+                "document types x nil elements: 90 720 shapes) and exports it; the harness builds a real Document per shape and "
+                "writes it with all eight registered serializers (SPDX 2.3, CycloneDX 1.0-1.5, SPDX 3 beta) in child processes "
+                "with a write-ahead journal, each document at two different history positions (block order, then reversed); "
+                "quick runs a seeded sample of the lattice, thorough all of it; distinct = (shape, format)",
+        "assumptions": ["outputs are compared after masking created/timestamp members and sorting every JSON array (done by the "
+                        "harness; the specification decides equality)",
+                        "shapes with nil elements are reachable only by programmatic construction; they are included"],
+    }
+    return simple.run_simple(pid, tier, plan, replay)
+
+
+def c04(pid, tier, replay):
+    import json as _json
+    from common import tlc as _tlc, Infra as _Infra, run as _run
+    nshards = 12
+
+    def prepare(scratch, plan, vh):
+        paths, dest = scratch.path("paths.json"), scratch.path("singles.json")
+        _run([vh, "fault-paths", "--out", paths])
+        out, rc, gen, dist = _tlc(scratch, "Totality", "Totality_faults.cfg", env={"VH_EXPORT": dest, "VH_PATHS": paths},
+                                  workers=1, timeout=900)
+        if rc != 0 or "No error has been found" not in out:
+            raise _Infra("TLC could not enumerate the fault schedule:\n" + out[-2000:])
+        n = len(_json.load(open(dest))["all"])
+        plan["jobs"] = [{"cmd": ["fault-run", "--schedule", dest, "--pairs", "3000" if tier == Q else "200000",
+                                 "--extra", "300" if tier == Q else "3000", "--seed", str(seed()),
+                                 "--shard", str(i), "--shards", str(nshards)], "label": "shard%d" % i} for i in range(nshards)]
+        plan["extra_coverage"] = {"json_paths": len(_json.load(open(paths))), "single_faults_enumerated_by_tlc": n,
+                                  "exhaustive": False}
+
+    plan = {
+        "module": "TraceTranslate", "cfg": "TraceTranslate.cfg", "own": r"^pf\..*$", "jobs": [], "prepare": prepare,
+        "level": "fault_enumeration",
+        "replay_cmd": lambda path: ["fault-run", "--replay", path],
+        "result_keys": ("results",), "nontrivial": lambda e: True,
+        "rule": "the harness lists every JSON path of six representative documents (writer output of a rich document in "
+                "SPDX 2.3 / CycloneDX 1.4 / 1.5 and three real SBOMs of the repository); TLC enumerates paths x 10 fault kinds "
+                "(null, each wrong type, empty, absent, duplicated member/element, oversized) and exports the schedule; every "
+                "single fault that applies is executed, plus seeded pairs of faults at unrelated paths, plus cases outside the "
+                "model (random bytes, truncations, bit flips, nesting depth 10^2-10^5); each input goes through format "
+                "detection, auto-detected parsing and three explicit parsers in child processes (journal, 20 s deadline, 8 GB "
+                "address-space cap); distinct = (input, entry point)",
+        "assumptions": ["'all byte strings' is sampled, not enumerated; the structured fault space is complete for single faults on the "
+                        "representative documents", "termination / polynomial time is decided by a per-call deadline, not proved"],
+    }
+    return simple.run_simple(pid, tier, plan, replay)
+
+
+CHECKS = {"C04": c04, "C07": c07, "C01": c01, "C02": c02, "C03": c03, "C19": c19, "C20": c20, "C18": c18, "C13": n13, "C14": n13, "C08": g08, "C09": g09, "C10": g09, "C11": g11, "C12": g12, "C15": g15, "C16": g16}
